@@ -341,7 +341,7 @@ pub fn main() {
     let opts = parse_args();
     silence_panics();
     let report = match opts.property.as_str() {
-        "C01" | "C11" | "C12" => prove::run(&opts, &opts.property.clone()),
+        "C01" | "C05" | "C11" | "C12" => prove::run(&opts, &opts.property.clone()),
         "C03" => {
             // storage level (keyspace dumps against the Index model) + the delivery path: a full
             // client on a growing chain against the ground truth
